@@ -144,6 +144,15 @@ Proof.
   - apply memZ_In. now apply H.
 Qed.
 
+Lemma nodupZ_NoDup l : nodupZ l = true <-> NoDup l.
+Proof.
+  induction l as [|x l IH]; simpl.
+  - split; [constructor|reflexivity].
+  - rewrite andb_true_iff, negb_true_iff, memZ_false, IH. split.
+    + intros [H1 H2]. now constructor.
+    + intros H. inversion H; subst. tauto.
+Qed.
+
 Lemma keys_dmap {A B} (f : A -> B) (d : dict A) : keys (dmap f d) = keys d.
 Proof. unfold keys, dmap. rewrite map_map. reflexivity. Qed.
 
